@@ -319,6 +319,8 @@ def expand(dtstart, r, n, horizon=2099, budget=400000):
         for t in inst:
             if _key(t) < ks:
                 continue
+            if t[0] > horizon:
+                return out, 'horizon'
             if r.until is not None and _key(t) > _key(r.until if r.until[3] is not None or t[3] is None else r.until[:3] + (23, 59, 59)):
                 return out, 'until'
             out.append(t)
